@@ -20,6 +20,7 @@ class Mode(object):
         return self._cipher.blocksize//8
 
     def iterblocks(self,M,**kargs):
+        self.pad.reset()
         for B in self.pad.iterblocks(M,**kargs):
             yield B
 
